@@ -43,6 +43,10 @@ def is_pure_getter(callee):
         return True
     if callee.endswith('::minimum_packet_size') or callee.endswith('::packet_size'):
         return True
+    if re.search(r'^std::collections::(HashSet|HashMap)::<[^>]*>::(contains|contains_key|len|is_empty)$', callee):
+        return True
+    if re.search(r'^std::vec::Vec::<[^>]*>::(len|is_empty|as_slice)$', callee):
+        return True
     return callee in PURE_FNS
 
 
@@ -404,8 +408,10 @@ class Fn:
                 p.append(('f', e[2]))
             elif e[0] == 'variant':
                 p.append(('v', e[2]))
+            elif e[0] == 'index':
+                p.append(('i', e[2]))
             else:
-                p.append(('i',))
+                p.append(('i', ('?',)))
             e = e[1]
         p.reverse()
         return p
@@ -541,7 +547,7 @@ class Fn:
             elif p[0] == 'v':
                 e = ('variant', e, p[1])
             else:
-                e = ('index', e, ('?',))
+                e = ('index', e, p[1] if len(p) > 1 else ('?',))
         return e
 
     def _stmt_write(self, bi, i, st, rlv, rroot):
